@@ -262,4 +262,52 @@ theorem validateLoop_nofault (fs : Nat) : ∀ (k : Nat) (first : Bool) (samples 
     · rename_i h; rw [h] at hs; cases hs
     · rename_i h; rw [h] at hs; cases hs
 
+/-! ### minimal length -/
+
+theorem valid_frames_pos (p : Packet) (hv : Valid p) : 1 ≤ p.frames.length := by
+  have h4 : p.toc % 4 < 4 := Nat.mod_lt _ (by decide)
+  have hcases : p.code = 0 ∨ p.code = 1 ∨ p.code = 2 ∨ p.code = 3 := by unfold Packet.code; omega
+  rcases hcases with hc | hc | hc | hc
+  · rw [(hv.code0 hc).1]; omega
+  · rw [(hv.code1 hc).1]; omega
+  · rw [(hv.code2 hc).1]; omega
+  · exact (hv.code3 hc).1
+
+/-- A self-delimited packet is at least two bytes (TOC + a length), a standard one at least one. -/
+theorem serialize_length_ge (sd : Bool) (p : Packet) (hv : Valid p) :
+    (if sd then 2 else 1) ≤ (serialize sd p).length := by
+  cases sd
+  · rw [serialize_shape]; simp
+  · have hpos := valid_frames_pos p hv
+    have hl : ∃ x, p.lens.getLast? = some x := by
+      cases hq : p.lens.getLast? with
+      | some x => exact ⟨x, rfl⟩
+      | none =>
+        rw [List.getLast?_eq_none_iff] at hq
+        have h := congrArg List.length hq
+        simp only [Packet.lens, List.length_map, List.length_nil] at h
+        omega
+    obtain ⟨x, hx⟩ := hl
+    have h1 : 1 ≤ ((lenFields true p).flatMap encLen).length := by
+      unfold lenFields
+      simp only [if_true, hx, Option.toList_some, List.flatMap_append, List.flatMap_cons, List.flatMap_nil,
+        List.append_nil, List.length_append]
+      have := encLen_length_pos x
+      omega
+    rw [serialize_shape]
+    simp only [List.length_cons, List.length_append, if_true]
+    omega
+
+theorem msSerialize_length_ge : ∀ (ps : List Packet), ps ≠ [] → (∀ p ∈ ps, Valid p) →
+    2 * ps.length - 1 ≤ (msSerialize ps).length
+  | [], h, _ => absurd rfl h
+  | [p], _, hv => by
+    have := serialize_length_ge false p (hv p (by simp))
+    simp only [msSerialize, List.length_singleton] at this ⊢; simpa using this
+  | p :: q :: r, _, hv => by
+    have h1 := serialize_length_ge true p (hv p (by simp))
+    have h2 := msSerialize_length_ge (q :: r) (by simp) (fun x hx => hv x (List.mem_cons_of_mem _ hx))
+    simp only [msSerialize, List.length_append, List.length_cons, if_true] at h1 h2 ⊢
+    omega
+
 end Opus.Layout
